@@ -343,12 +343,16 @@ class MultiTypeMap(dict):
             raise self.key_error(obj_t_tup, ())
 
         funcs = []
+        fallthrough = None
         for group in reversed(results):
             handlers = [c.handler for c in group]
             dependent = any(self.dependent[c.handler] for c in group)
             if dependent:
                 nxt = self.wrap_dependent(
-                    obj_t_tup, handlers, group, funcs[-1] if funcs else None
+                    obj_t_tup,
+                    handlers,
+                    group,
+                    (fallthrough, None) if fallthrough else None,
                 )
             elif len(group) != 1:
                 nxt = None
@@ -356,6 +360,12 @@ class MultiTypeMap(dict):
                 nxt = handlers[0]
             codes = [h.__code__ for h in handlers if hasattr(h, "__code__")]
             funcs.append((nxt, codes))
+            if nxt is None:
+                # Falling through into a group of tied handlers is ambiguous
+                def fallthrough(*_, _err=self.key_error(obj_t_tup, group), **__):
+                    raise _err
+            else:
+                fallthrough = nxt
 
         funcs.reverse()
 
